@@ -73,12 +73,49 @@ def _check_lock_and_prefix(run, repo, world):
     check_serial_order(run, repo, world, rule="R-FLUSH")
 
 
+def check_mailbox_wait(run, world, mod, fn, cfg, Q, RULE):
+    """Shared with C15 ('every caller eventually completes')."""
+    # the sender's event is level-triggered and cleared after each wake-up,
+    # while several reports can be queued before the sender runs: it only
+    # waits when its mailbox is empty, or a report already queued is never
+    # looked at and the sender hangs with the lock and its slot
+    ev = ms = None
+    for n_ in ast.walk(fn):
+        if isinstance(n_, ast.Assign) and any(
+                isinstance(t_, ast.Subscript) and unparse(
+                    t_.value) == "self._outstanding"
+                for t_ in n_.targets) and isinstance(
+                    n_.value, ast.Tuple) and len(n_.value.elts) == 2 and all(
+                        isinstance(e_, ast.Name) for e_ in n_.value.elts):
+            ev, ms = n_.value.elts[0].id, n_.value.elts[1].id
+    if ev is None:
+        raise AnalysisError("%s: registration of (event, messages) in "
+                            "self._outstanding not found" % Q)
+    Wc = forward_worlds(cfg, kill_conds_on_assign, cond_edge_transfer())
+    waits = [n_ for n_ in cfg.reachable if n_.ast is not None and n_.kind in (
+        "stmt", "test") and "%s.wait()" % ev in unparse(n_.ast, 300)]
+    run.floor("tridonic sender waits on its event", len(waits), 1)
+    empty = [("cond", "len(%s) == 0" % ms, True), ("cond", ms, False),
+             ("cond", "len(%s)" % ms, False),
+             ("cond", "len(%s) != 0" % ms, False),
+             ("cond", "len(%s) > 0" % ms, False)]
+    for n_ in waits:
+        bad = Wc.worlds_with(n_, lambda w: not any(f in w for f in empty))
+        run.ob(RULE, Q + "#waits-only-on-empty-mailbox", not bad,
+               "the sender can wait on its event while reports are still "
+               "queued in `%s` (no test of it being empty on the path): "
+               "with two reports queued back to back the second is never "
+               "taken and the caller hangs holding the lock" % ms,
+               where(mod, n_))
+
+
 def _check_slot(run, repo, world, mod):
     run.rule("R-SLOT", "in-flight slot released (or table cleared) on every "
              "exit of tridonic._send_raw, including cancellation at an await")
     owner, fn = _fn(world, HID + ".tridonic", "_send_raw")
     Q = HID + ".tridonic._send_raw"
     cfg = CFG(fn, may_raise=suspension_may_raise, name=Q)
+    check_mailbox_wait(run, world, mod, fn, cfg, Q, "R-SLOT")
     # _shutdown_device clears the table (so disconnect() releases the slot)
     so, sfn = _fn(world, HID + ".tridonic", "_shutdown_device")
     clears = _clears_table(sfn)
@@ -351,6 +388,36 @@ def _check_wake(run, repo, world, mod):
         run.ob("R-WAKE", cq + "._send_raw#fail->CommunicationError", ok,
                "a woken sender must turn 'fail' into CommunicationError",
                where(mod, f2))
+    # the hasseb sender's event may be set when it starts - by an answer
+    # nobody waited for, or by the 'fail' of a disconnect at idle - so it
+    # is cleared on every path before the sender waits on it
+    ho2, hsr = _fn(world, HID + ".hasseb", "_send_raw")
+    hcfg = CFG(hsr, may_raise=suspension_may_raise,
+               name=HID + ".hasseb._send_raw")
+    EVH = "self._response_available"
+
+    def hhas(node, meth):
+        return node.ast is not None and node.kind in ("stmt", "test") and \
+            any(isinstance(x_, ast.Call) and unparse(x_.func) ==
+                "%s.%s" % (EVH, meth) for x_ in _walk_no_nested(node.ast))
+
+    def htr(node, st):
+        if hhas(node, "clear"):
+            st = st - {"stale"}
+        if hhas(node, "wait"):
+            st = st | {"stale"}
+        return st
+    HW = forward_worlds(hcfg, htr, None, init=frozenset({"stale"}))
+    hwaits = [n_ for n_ in hcfg.reachable if hhas(n_, "wait")]
+    run.floor("hasseb sender waits on its event", len(hwaits), 1)
+    for n_ in hwaits:
+        bad = HW.worlds_with(n_, lambda w: "stale" in w)
+        run.ob("R-WAKE", HID + ".hasseb._send_raw#stale-wake-up-discarded",
+               not bad,
+               "the sender can wait on %s without having cleared it since "
+               "it started: a wake-up left over from before this command "
+               "(the 'fail' of a disconnect at idle, a late answer) is "
+               "taken for this command's answer" % EVH, where(mod, n_))
     # bus watch task cancelled and state reset for the next handshake
     body = " ".join(unparse(s) for s in sfn.body)
     run.ob("R-WAKE", HID + ".tridonic._shutdown_device#handshake-reset",
